@@ -1,6 +1,8 @@
 import XV.Driver.Util
 import XV.Model.ByteCodec
 import XV.Model.Recognizer
+import XV.Model.CodecStream
+import XV.Spec.Ascii
 namespace XV.Driver.Codec
 open XV.Driver XV.Model.ByteCodec XV.Gen.ByteTables
 
@@ -40,8 +42,27 @@ def toRes (enc : String) (us : List Nat) (m : Nat) (thr : Bool) : Option CRes :=
       | .ok o e => .ok o [] e
       | .unrepresentable => .exc "Trans_Unrepresentable"
 
+def showS : XV.Model.CodecStream.SRes → String
+  | .done o => s!"done {hexList o}"
+  | .exc o p n => s!"exc {n} {hexList o} {p}"
+  | .stalled o p => s!"stalled {hexList o} {p}"
+
+def known (enc : String) : Bool :=
+  enc ∈ ["ISO-8859-1", "US-ASCII", "UTF-16LE", "UTF-16BE", "UCS-4LE", "UCS-4BE"] || (tableOf enc).isSome
+
 def handle (line : String) : String :=
   match words line with
+  | ["GS", enc, blk, m, bs] => match blk.toNat?, m.toNat?, parseHexList bs with
+      | some blk, some m, some bs =>
+        if known enc then
+          showS (XV.Model.CodecStream.decodeStream (fun s k => (fromRes enc s k).getD (.exc "bad-op")) blk m bs)
+        else "bad-op"
+      | _, _, _ => "bad-op"
+  | ["SA", bs] => match parseHexList bs with
+      | some bs => match XV.Spec.Ascii.decode bs with
+          | (cs, none) => s!"{hexList cs} legal"
+          | (cs, some off) => s!"{hexList cs} illegal {off}"
+      | none => "bad-op"
   | ["GF", enc, m, bs] => match m.toNat?, parseHexList bs with
       | some m, some bs => match fromRes enc bs m with
           | some r => showC true r
@@ -58,7 +79,7 @@ def handle (line : String) : String :=
   | ["GC", enc, cp] => match parseHex cp with
       | some c => match enc with
           | "ISO-8859-1" => if c < 256 then "1" else "0"
-          | "US-ASCII" => if c < 128 then "1" else "0"
+          | "US-ASCII" => if XV.Model.CodecStream.asciiCan c then "1" else "0"
           | "UTF-16LE" | "UTF-16BE" | "UCS-4LE" | "UCS-4BE" => "1"
           | _ => match tableOf enc with
               | some t => if canTranscodeTo t c then "1" else "0"
